@@ -756,8 +756,10 @@ func (db *DB) searchAll(o Object, field, operator string, value interface{}, con
 		return &Search{db: db, err: err}
 	}
 
-	// we go through the iterator
-	for obj, err := iter.next(); err == nil && err != ErrEOI; obj, err = iter.next() {
+	// we go through the iterator, an object which cannot be read
+	// ends the search with an error (no partial result)
+	var obj Object
+	for obj, err = iter.next(); err == nil; obj, err = iter.next() {
 		var test *indexedField
 		var value interface{}
 		var ok bool
